@@ -80,6 +80,15 @@ def _join(*parts):
     return out
 
 
+def _defaultdict(factory, *a, **k):
+    import collections
+    real = {"builtins.set": set, "builtins.list": list, "builtins.dict": dict, "builtins.int": int}
+    f = real.get(getattr(factory, "name", None))
+    if factory is not None and f is None:
+        raise Unsupported("defaultdict factory")
+    return collections.defaultdict(f, *a, **k)
+
+
 def _fspath(p):
     if isinstance(p, Obj):
         try:
@@ -94,7 +103,8 @@ def _fspath(p):
 PURE_BUILTINS = {
     "int": int, "str": str, "len": len, "set": set, "list": list, "dict": dict, "sorted": sorted, "enumerate": enumerate, "zip": zip,
     "range": range, "min": min, "max": max, "any": any, "all": all, "tuple": tuple, "frozenset": frozenset, "bool": bool, "float": float,
-    "isinstance": None, "hasattr": None, "repr": repr, "abs": abs, "sum": sum, "reversed": reversed,
+    "isinstance": None, "hasattr": None, "repr": repr, "abs": abs, "sum": sum, "reversed": reversed, "dict.fromkeys": dict.fromkeys,
+    "print": lambda *a, **k: None,
 }
 PURE_EXTERNAL = {
     "os.path.join": lambda *a: _join(*a),
@@ -111,7 +121,10 @@ PURE_EXTERNAL = {
     "os.path.normpath": lambda p: tok("norm:" + p) if "⟦" in p else os.path.normpath(p),
     "os.path.abspath": lambda p: tok("abs:" + p) if "⟦" in p or not os.path.isabs(p) else os.path.normpath(p),
     "os.path.realpath": lambda p: tok("abs:" + p) if "⟦" in p or not os.path.isabs(p) else os.path.normpath(p),
-    "collections.defaultdict": None,
+    "collections.defaultdict": lambda factory=None, *a, **k: _defaultdict(factory, *a, **k),
+    "collections.OrderedDict": lambda *a, **k: dict(*a, **k),
+    "collections.Counter": lambda *a, **k: __import__("collections").Counter(*a, **k),
+    "contextlib.suppress": lambda *excs: Obj("suppress", kinds=[getattr(e, "name", str(e)).rsplit(".", 1)[-1] for e in excs]),
 }
 SAFE_METHODS = {
     str: {"format", "join", "strip", "rstrip", "lstrip", "split", "splitlines", "replace", "startswith", "endswith", "lower", "upper", "partition",
@@ -252,7 +265,11 @@ class PureInterp:
                 if item.optional_vars is not None:
                     self.assign(item.optional_vars, v, env, module, depth)
             try:
-                self.block(st.body, env, module, depth)
+                try:
+                    self.block(st.body, env, module, depth)
+                except Raised as r_:
+                    if not any(isinstance(v, Obj) and v._name == "suppress" and (r_.kind in v.kinds or "Exception" in v.kinds or (r_.kind.endswith("Error") and "OSError" in v.kinds and r_.kind in ("FileNotFoundError", "PermissionError", "OSError"))) for v in opened):
+                        raise
             finally:
                 for v in reversed(opened):
                     if isinstance(v, Obj) and v._name == "file":
@@ -325,6 +342,8 @@ class PureInterp:
             if isinstance(op, ast.FloorDiv):
                 return l // r
             if isinstance(op, ast.Div):
+                if isinstance(l, str):
+                    return _join(l, r)
                 return l / r
             if isinstance(op, ast.Mod):
                 return l % r
@@ -357,8 +376,8 @@ class PureInterp:
         if isinstance(obj, tuple) and obj[0] == "const":
             try:
                 return self.ev.eval(obj[2], obj[1])
-            except CantEval as exc:
-                raise Unsupported(str(exc))
+            except CantEval:
+                return Obj("opaque:" + n.id)  # e.g. logger = logging.getLogger(__name__)
         if isinstance(obj, (FuncInfo, ClassInfo)):
             return obj
         return FuncRef(canon)
@@ -396,6 +415,8 @@ class PureInterp:
                         if "property" in mth.decorator_names():
                             return self.call(mth, (), {}, self_obj=o, depth=depth + 1)
                         return ("bound", mth, o)
+                if ("attr:" + n.attr) in self.hooks:
+                    return ("hookattr", n.attr, o)
                 raise Raised("AttributeError", n.attr)
         if isinstance(o, FuncRef):
             return FuncRef(o.name + "." + n.attr)
@@ -552,6 +573,8 @@ class PureInterp:
             return self.call(f, args, kwargs, depth=depth + 1)
         if isinstance(f, tuple) and f and f[0] == "bound":
             return self.call(f[1], args, kwargs, self_obj=f[2], depth=depth + 1)
+        if isinstance(f, tuple) and f and f[0] == "hookattr":
+            return self.hooks["attr:" + f[1]](f[2], *args, **kwargs)
         if isinstance(f, tuple) and f and f[0] == "closure":
             return self.call(f[1], args, kwargs, depth=depth + 1, closure=f[2])
         if isinstance(f, tuple) and f and f[0] == "method":
